@@ -13,12 +13,13 @@ RULE = ("scripts = 2..4 scripted modules on a ring (gate out -> next module, gat
         "each with handler programs selected by payload, start programs selected by incarnation, up to 3 tokio tasks (sleep / log / send / "
         "shutdown / restart_in), stage count 1..3, budget; plus injected messages (direct, onto out, onto far).  Structured families: "
         "shutdown and shutdow_and_restart_in from handlers and from tasks, restart at the same instant as arrivals and timer deadlines, "
-        "messages in transit at shutdown and through a gate of a down module, repeated cycles, two modules cycling out of phase, plus a "
-        "random family; exhaustive tier: every injection order of {arrival, shutdown request, restart trigger} around one instant x "
+        "messages in transit at shutdown and through a gate of a down module, repeated cycles, two modules cycling out of phase, a "
+        "1-step ticker shut down mid-period with a restart delay shorter than the rest of the period and no other event of the module "
+        "in between (the old incarnation's wake-up is still queued when the new incarnation sleeps), plus a random family; exhaustive tier: every injection order of {arrival, shutdown request, restart trigger} around one instant x "
         "{timer deadline at that instant} x {restart delay} x {gate}.  non-trivial = distinct script whose run resets a module and hits >= 3 "
         "targeted mechanisms")
 TRUSTED = ["user code is a script language: log / send_in(out|far) / schedule_in / sleep (tasks) / shutdown / shutdow_and_restart_in / panic / "
-           "quiet; tasks are spawned by at_sim_start(0) only (tokio::spawn + try_join), one timer per task at a time",
+           "quiet / set_stereotyp; tasks are spawned by at_sim_start(0) only (tokio::spawn + try_join), one timer per task at a time",
            "the event set is the two-list specification that C01 proves the calendar queue refines",
            "tokio is modelled as: woken and freshly spawned tasks are polled once each, FIFO, by the yield inside Harness::exec; dropping "
            "the runtime cancels every task and removes its timer entry (observed through task logs and drop guards, not proved)",
@@ -39,14 +40,17 @@ CLAIM = dict(
          "flags of the receiver and of the owners of the gates of its own chain, and an event of one module never changes another "
          "module's state.  The model is tied to des on every invocation by differential runs of scripted modules/tasks on the real "
          "runtime (shutdown(), shutdow_and_restart_in(), tokio::spawn + des::time::sleep, transit gates, stepping with is_active samples, "
-         "drop guards on task futures) against the extracted model, plus a monitor that states (1)-(5) and the dropping of messages "
-         "through gates of a down module on the implementation's own log.",
+         "drop guards on task futures) against the extracted model, plus a monitor that states (1)-(5), the dropping of messages "
+         "through gates of a down module and timer exactness (a task that sleeps d from time x takes its next step at exactly x+d -- in "
+         "particular a task of a new incarnation is not resumed early or late by a wake-up left over from the old one -- unless the "
+         "module is reset, quietened or its callback panics at or before x+d) on the implementation's own log.",
     note="Trusted: Coq kernel; extraction cross-checked in-Coq on a sample each run; harness/generator quality bounds the tie to the code. "
          "Not modelled: that dropping the tokio runtime really cancels tasks (observed via drop guards and task logs). The tear-down sweep calls "
          "at_sim_end on every module irrespective of is_active; that lifecycle call is not a 'message handler, task or timer' and is "
          "outside (1)-(2) (the start-up sweep skips inactive modules since 1526470 and is covered). 'Behaves like a freshly started module' is claimed in "
          "the form (5) + (4): fresh tasks, stages replayed; a whole-trace comparison with a fresh module is not proved. Every run of the "
-         "model terminates (proved: C09_run_terminates), so 'no restart left over' holds unconditionally.",
+         "model terminates (proved: C09_run_terminates), so 'no restart left over' holds unconditionally. Timer exactness is a monitor "
+         "clause (computed from the log alone), not a Coq theorem; in the model it holds by construction of the differential check.",
     technique="Coq: invariants over a step relation generating every world of the run (reset => down, down => inert), an interpreter invariant "
               "tying logged samples to state, event-set bookkeeping of restart events, termination by a potential; differential correspondence "
               "check; log monitor",
